@@ -94,7 +94,7 @@ def body():
             for d in dens:
                 want /= d
             chk.count((fam, n, tuple(mono)), sum(mono) > 0)
-            if abs(got - want) > TOL:
+            if not (abs(got - want) <= TOL):   # NaN counts as a deviation
                 fail("degree", "monomial %s (degree %d <= %d) integrates to %.17g, exact %.17g" % (mono, sum(mono), ob["maxdeg"], got, want))
                 break
         chk.cov["obligations_replayed"] += 1
